@@ -5,6 +5,12 @@ V = os.path.dirname(os.path.dirname(os.path.abspath(__file__)))
 ALL = ["C%02d" % i for i in range(1, 21)]
 
 CLAIMED = {
+ "C15": dict(
+   level="exploration",
+   text="Topologies of 2-5 router sessions (45 % with an invoked child router, explicit or generated invoke id; 20 % ECMAScript) whose generated command transitions execute one <send> each: all target forms (none, #_internal, #_scxml_<id> literal and by targetexpr incl. own id and children, own _ioprocessors location, #_parent, #_<invokeid> explicit and generated, each literal and as targetexpr), type forms, payload shapes (none, params, namelist, content text/expr) and id forms (none, literal, idlocation); 1-4 host threads issue the commands concurrently. Every session marks each processed event with all fields and replies to _event.origin. Oracle: processed exactly once, by the addressed session, from the addressed queue; name, sendid, data equal; one reply reaches the sender. Second phase: 4-16 threads start 2-8 sessions each simultaneously (spinning barrier per round), each with 3 idlocation sends and 2 id-less invokes: session ids globally distinct, generated ids distinct per session, invoke ids of the form stateid.platformid.",
+   design="6/C15",
+   note="Only conformant sends are generated (unknown targets etc. belong to C12). 5 s limit for a delivery. Id uniqueness under concurrent starts is a sampled race.",
+   technique="property-based testing: generated session topologies and send forms + exactly-once/addressee/field-equality/reply oracle; concurrent-start id uniqueness"),
  "C16": dict(
    level="exploration",
    text="Generated send/cancel programs (1-3 phases x 1-6 steps, phases started by the host 0-210 ms apart) in a sender session, optionally a second sender re-using the first one's send ids, against a receiver session: <send> with delays 10-400 ms in all unit spellings incl. fractions and long delays (1m..1d), via delay / delayexpr literal / delayexpr variable, ids none / unique / shared by two pending sends / idlocation, target other session or own queue, a <param> whose variable is changed after the send; <cancel> by sendid / sendidexpr; optional termination of the sender between phases; rfsm-expression and ECMAScript senders; optional lock jitter. Every send and cancel is bracketed by time-stamped marks; time-robust invariants: never early, never twice, payload from send time, cancelled-in-time never delivered, every other id and the other session's equal id delivered, due-time order, nothing from a terminated sender after its end.",
